@@ -65,7 +65,7 @@ ValidityMonotone ==
 
 ValidPunctuation ==
     FormatValidity(f, AllFeat) = "valid" =>
-        \A c \in {f.digit_separator, f.base_prefix, f.base_suffix} :
+        \A c \in {PackedView(f).digit_separator, f.base_prefix, f.base_suffix} :
             c = 0 \/ (~IsDigit(c, ControlRadixOf(f)) /\ c # CPlus /\ c # CMinus /\ IsAscii(c))
 
 StandardIsValid == depth = 0 => \A ft \in Feats : FormatValidity(f, ft) = "valid"
